@@ -105,7 +105,7 @@ M("c19-treeinfo-version-nested", ["C19"],
 M("c19-label-word-dash-nested", ["C19"],
   (CI, r'LABEL_RE_LIST.append(re.compile(r"^%s-\d+\.\d+\Z" % label_name))', r'LABEL_RE_LIST.append(re.compile(r"^(%s-?)+\d+(\.?\d+)+\Z" % label_name))'))
 M("c19-variant-id-alternation", ["C19"],
-  (CI, r'self._assert_matches_re("id", [r"^[a-zA-Z0-9]+\Z"])', r'self._assert_matches_re("id", [r"^([a-zA-Z]|[a-z0-9]|[A-Z0-9])+\Z"])'))
+  (CI, r'self._assert_matches_re("id", [r"^[a-zA-Z0-9]+\Z"])', r'self._assert_matches_re("id", [r"^([a-zA-Z0-9]+)+\Z"])'))
 M("c19-module-uid-nested", ["C19"],
   (MO, r'(?P<module_name>[^:]+):', r'(?P<module_name>([^:/]+/?)+):'))
 M("c19-implant-md5-nested", ["C19"],
